@@ -2630,7 +2630,10 @@ class TLSConnection(TLSRecordLayer):
             serverCertChain = None
         srpUsername = None
         serverName = None
-        if clientHello.srp_username:
+        # the user name is attributed to the peer only when the SRP key
+        # exchange (password proof) was actually performed
+        if clientHello.srp_username and \
+                cipherSuite in CipherSuite.srpAllSuites:
             srpUsername = clientHello.srp_username.decode("utf-8")
         if clientHello.server_name:
             serverName = clientHello.server_name.decode("utf-8")
